@@ -58,6 +58,28 @@ CHECKS = {
             'No exception and insertion order on unchecked elements, byte identity with the checked twin on valid '
             'words, and identical behaviour of a checked element whether or not its ancestors are unchecked.',
             '3 C18'),
+    'C04': ('exhaustive (element, attribute) x route x validity enumeration + Hypothesis set/overwrite/remove histories '
+            'against a model dict; serialised attributes read back with xml.etree',
+            'Every declared pair is exercised on the constructor, dot and parser routes with oracle-valid and near-miss '
+            'values, plus undeclared names; histories are checked against a dict model incl. required-attribute '
+            'refusal and the serialised attribute set.', '3 C04'),
+    'C05': ('exhaustive enumeration-literal x type cross product and value panels through three vehicles, plus '
+            'Hypothesis numbers/strings; independent XSD lexical-space validator as oracle',
+            'Accepted values must emit text inside the type\'s lexical space (independent validator); every '
+            'oracle-valid text offered in its documented Python representation must be accepted; element-only types '
+            'must refuse text.', '3 C05'),
+    'C08': ('Hypothesis-generated complete documents built through the API; write -> parse -> write round trip with a '
+            'typed infoset comparator',
+            'Own output is re-read and compared as a typed infoset; second trip byte-identical; integer types stay '
+            'int.', '3 C08'),
+    'C11': ('rebuilt-twin differential over generated add/remove histories (bounded-exhaustive + Hypothesis) with '
+            'replay-based acceptance probes',
+            'After removals the element is compared with a fresh element holding the survivors: verdict/text, order '
+            'and per-symbol acceptance.', '3 C11'),
+    'C12': ('exact-DP enumeration of unique-arrangement multisets and all their permutations; oracle-steered add '
+            'histories judged by completability',
+            'Every multiset (size<=3/4) with exactly one valid arrangement is fed in every permutation; every '
+            'rejection in add-only histories is checked against the completability oracle.', '3 C12'),
 }
 
 ALL = ['C%02d' % i for i in range(1, 21)]
